@@ -272,6 +272,7 @@ func c05Check(doc []byte, want ap.Item, rootCell string, typed bool) (ds []keyed
 			v1, err = codecJSONTyped.decode(want, doc)
 		} else {
 			v1, err = ap.UnmarshalJSON(doc)
+			clobberJSON(len(doc))
 		}
 	})
 	if pi != nil {
